@@ -1,0 +1,59 @@
+//go:build verif
+
+package animation
+
+import "image"
+
+// Hooks for the verification harness (/verif, properties C08 and C18): read-only views of the
+// animation encoder's decision state and of the helper functions its decisions rest on.
+
+// VerifEncState is the optimiser state of an AnimEncoder after an AddFrame call.
+type VerifEncState struct {
+	FrameCount         int
+	CountSinceKeyframe int
+	PrevMuxIndex       int
+	PrevFrameRect      image.Rectangle
+	Kmin, Kmax         int // after sanitizeKeyframeOptions
+	LoopCount          int // after clampLoopCount
+}
+
+// VerifState returns the encoder's optimiser state.
+func (e *AnimEncoder) VerifState() VerifEncState {
+	return VerifEncState{
+		FrameCount:         e.frameCount,
+		CountSinceKeyframe: e.countSinceKeyframe,
+		PrevMuxIndex:       e.prevMuxIndex,
+		PrevFrameRect:      e.prevFrameRect,
+		Kmin:               e.opts.Kmin,
+		Kmax:               e.opts.Kmax,
+		LoopCount:          e.opts.LoopCount,
+	}
+}
+
+// VerifFindChangedRect exposes findChangedRect.
+func VerifFindChangedRect(prev, curr *image.NRGBA) image.Rectangle {
+	return findChangedRect(prev, curr)
+}
+
+// VerifSnapToEven exposes snapToEven.
+func VerifSnapToEven(r image.Rectangle) image.Rectangle { return snapToEven(r) }
+
+// VerifBlendingPossible exposes isLosslessBlendingPossible / isLossyBlendingPossible.
+func VerifBlendingPossible(src, dst *image.NRGBA, rect image.Rectangle, lossless bool, quality int) bool {
+	if lossless {
+		return isLosslessBlendingPossible(src, dst, rect)
+	}
+	return isLossyBlendingPossible(src, dst, rect, quality)
+}
+
+// VerifQualityToMaxDiff exposes qualityToMaxDiff.
+func VerifQualityToMaxDiff(quality int) int { return qualityToMaxDiff(quality) }
+
+// VerifSanitizeKeyframeOptions exposes sanitizeKeyframeOptions.
+func VerifSanitizeKeyframeOptions(kmin, kmax int) (int, int) {
+	sanitizeKeyframeOptions(&kmin, &kmax)
+	return kmin, kmax
+}
+
+// VerifClampLoopCount exposes clampLoopCount.
+func VerifClampLoopCount(v int) int { return clampLoopCount(v) }
